@@ -174,7 +174,7 @@ def child_main(rank, size, rfd, wfd, spec, scratch, pkgdir):
         ticker.install(spec.get('tick_modules') or [])
         plan = (spec.get('plan') or {})
         plan = plan.get(rank, plan.get(str(rank), {})) or {}
-        ticker.CLOCK.plan = {int(k): tuple(v) for k, v in plan.items()}
+        ticker.CLOCK.plan = {(k if k == '*' else int(k)): tuple(v) for k, v in plan.items()}
         ticker.CLOCK.record = bool(spec.get('profile'))
         ticker.CLOCK.count_calls = bool(spec.get('profile_calls'))
         recv(rfd)  # first baton
